@@ -55,7 +55,7 @@ theorem closure_snapshot {Φ : FnDef → Option FDecl} (fuel : Nat) (cx : Option
     (h : evalE Φ fuel cx σ (.mkclos l code lines np nl body caps) = some (c, σ1)) :
     ∃ vs, capVals cx σ caps = some vs ∧
       c = .clos (mkFd code lines ⟨np, nl, body, l⟩) [] σ.h.length ∧
-      σ1 = ⟨σ.l, σ.g, σ.h ++ [vs]⟩ ∧ σ1.h[σ.h.length]? = some vs ∧
+      σ1 = ⟨σ.l, σ.g, σ.h ++ [vs], σ.a⟩ ∧ σ1.h[σ.h.length]? = some vs ∧
       ∀ (fuel' : Nat) (fd' : FnDef) (σ2 : Sto) (ll i : Nat), σ2.h[σ.h.length]? = some vs →
         evalE Φ (fuel' + 1) (some (fd', σ.h.length)) σ2 (.fget ll i) = (vs[i]?).map (fun v => (v, σ2)) := by
   cases fuel with
@@ -137,6 +137,7 @@ theorem captured_assignment_is_private_ref {Φ : FnDef → Option FDecl} (fuel :
               rw [List.getElem?_eq_none this] at hfr
               cases hfr
           refine ⟨σ1, fr, rfl, hfr, hi, rfl, rfl, rfl, ?_, ?_, ?_⟩
+          all_goals simp only [Sto.setH_eq]
           · intro id' hne
             exact List.getElem?_set_ne (by omega)
           · simp [freeGet, List.getElem?_set_self hid, hi]
@@ -165,7 +166,7 @@ theorem call_keeps_caller_slots {Φ : FnDef → Option FDecl} (fuel : Nat) (cx :
       simp only [ha] at h
       refine ⟨vf, σ1, vs, σ2, rfl, ha, ?_⟩
       repeat' split at h
-      all_goals first | (simp at h; done) | (simp only [Option.some.injEq, Prod.mk.injEq] at h; rw [← h.2])
+      all_goals first | (simp at h; done) | (simp only [Option.some.injEq, Prod.mk.injEq] at h; rw [← h.2]; done) | (simp only [Option.some.injEq, Prod.mk.injEq] at h; rw [← h.2]; rfl)
 
 /-! ## programs that never assign a captured variable: closure objects are immutable (reference evaluation)
 
@@ -180,7 +181,10 @@ mutual
 /-- no assignment to a captured variable at this function's own level (the bodies of nested
 function literals are other functions) -/
 def noFsetE : FExpr → Bool
-  | .lit .. | .tru _ | .fls _ | .null _ | .gget .. | .lget .. | .curr _ | .fget .. | .mkclos .. => true
+  | .lit .. | .tru _ | .fls _ | .null _ | .gget .. | .lget .. | .curr _ | .fget .. | .mkclos .. | .bfn .. => true
+  | .arrLit _ es | .mapLit _ es => noFsetArgs es
+  | .index _ c i => noFsetE c && noFsetE i
+  | .setIndex _ c i e => noFsetE e && noFsetE c && noFsetE i
   | .fset .. => false
   | .un _ _ e | .gset _ _ e | .lset _ _ e => noFsetE e
   | .bin _ _ a b | .lt _ a b | .le _ a b | .and _ a b | .or _ a b => noFsetE a && noFsetE b
@@ -248,7 +252,8 @@ theorem hframe_succ {Φ : FnDef → Option FDecl} (hRO : ∀ fd d, Φ fd = some 
               have hro := hRO fd d hd
               by_cases har : vs.length = d.np
               · simp only [har, if_true] at he
-                cases hb : Fn.evalP Φ fuel (some (fd, id)) ⟨vs ++ List.replicate (d.nl - d.np) .null, σ2.g, σ2.h⟩ d.body with
+                simp only [Sto.enter_eq, Sto.back_eq] at he
+                cases hb : Fn.evalP Φ fuel (some (fd, id)) ⟨vs ++ List.replicate (d.nl - d.np) .null, σ2.g, σ2.h, σ2.a⟩ d.body with
                 | none => simp [hb] at he
                 | some rb =>
                   obtain ⟨σ3, fb, bv⟩ := rb
@@ -259,6 +264,14 @@ theorem hframe_succ {Φ : FnDef → Option FDecl} (hRO : ∀ fd d, Φ fd = some 
                   rw [this]
                   exact (h1.trans h2).trans h3
               · simp [har] at he
+          | builtin name =>
+            simp only at he
+            cases hr : callBuiltinH σ2.a name vs with
+            | none => simp [hr] at he
+            | some ra =>
+              simp only [hr, Option.some.injEq, Prod.mk.injEq] at he
+              rw [← he.2]
+              exact h1.trans h2
           | _ => simp at he
     | fset l i e => simp [noFsetE] at hn
     | mkclos l code lines np nl body caps =>
@@ -269,14 +282,14 @@ theorem hframe_succ {Φ : FnDef → Option FDecl} (hRO : ∀ fd d, Φ fd = some 
         simp only [hc, Option.some.injEq, Prod.mk.injEq] at he
         rw [← he.2]
         exact List.prefix_append _ _
-    | _ => simp only [Fn.evalE] at he <;> simp only [noFsetE, Bool.and_eq_true] at hn <;> grind
+    | _ => simp only [Fn.evalE, Sto.setA_eq, Sto.gset_eq, Sto.lset_eq, Sto.setH_eq, Sto.pushH_eq] at he <;> simp only [noFsetE, Bool.and_eq_true] at hn <;> grind
   · intro cx σ w a v σ' hn he
     cases a <;> simp only [Fn.evalArms] at he <;> simp only [noFsetArms, Bool.and_eq_true] at hn <;> grind
   · intro cx σ a vs σ' hn he
     cases a <;> simp only [Fn.evalArgs] at he <;> simp only [noFsetArgs, Bool.and_eq_true] at hn <;> grind
   · intro cx σ s σ' f bv hn he
     have hn0 := hn
-    cases s <;> simp only [Fn.evalS] at he <;> simp only [noFsetS, Bool.and_eq_true] at hn <;> grind
+    cases s <;> simp only [Fn.evalS, Sto.gset_eq, Sto.lset_eq] at he <;> simp only [noFsetS, Bool.and_eq_true] at hn <;> grind
   · intro cx σ ss σ' f bv hn he
     cases ss <;> simp only [Fn.evalP] at he <;> simp only [noFsetP, Bool.and_eq_true] at hn <;> grind
 
@@ -424,10 +437,10 @@ was created -/
 theorem closure_snapshot_machine {X Y : Ctxt} {pc c : Nat} {vs ops : List Val} {σ : Sto} {fd : FnDef}
     {s2 : FSt} {pc' i : Nat} {ops' : List Val} {σ' : Sto} {v : Val}
     (hc : codeAt X.code pc [Instr.closure c vs.length]) (hk : K[c]? = some (.func fd))
-    (hrun : QuietSteps K F σ.h.length (X.st (pc + 4) (.clos fd [] σ.h.length :: ops) ⟨σ.l, σ.g, σ.h ++ [vs]⟩) s2)
+    (hrun : QuietSteps K F σ.h.length (X.st (pc + 4) (.clos fd [] σ.h.length :: ops) ⟨σ.l, σ.g, σ.h ++ [vs], σ.a⟩) s2)
     (hs2 : s2 = Y.st pc' ops' σ') (hY : Y.cid = σ.h.length)
     (hg : codeAt Y.code pc' [Instr.getFree i]) (hv : vs[i]? = some v) :
-    fstep K F (X.st pc (vs.reverse ++ ops) σ) = some (X.st (pc + 4) (.clos fd [] σ.h.length :: ops) ⟨σ.l, σ.g, σ.h ++ [vs]⟩) ∧
+    fstep K F (X.st pc (vs.reverse ++ ops) σ) = some (X.st (pc + 4) (.clos fd [] σ.h.length :: ops) ⟨σ.l, σ.g, σ.h ++ [vs], σ.a⟩) ∧
     fstep K F s2 = some (Y.st (pc' + 2) (v :: ops') σ') := by
   refine ⟨fstep_closure hc hk, ?_⟩
   have hst := snapshot_stable hrun (by simp [Ctxt.st, Ctxt.at])
@@ -443,7 +456,7 @@ theorem closure_snapshot_machine {X Y : Ctxt} {pc c : Nat} {vs ops : List Val} {
 theorem fstep_setFree_inv {s s' : FSt} {i : Nat}
     (hf : fetch s.act.code s.act.pc = some (.setFree i)) (hs : fstep K F s = some s') :
     ∃ v rest fr, s.stk = v :: rest ∧ s.h[s.act.cid]? = some fr ∧ i < fr.length ∧ s.act.cid < s.h.length ∧
-      s' = ⟨{ s.act with pc := s.act.pc + 2 }, s.stk, s.g, s.h.set s.act.cid (fr.set i v), s.callers⟩ := by
+      s' = ⟨{ s.act with pc := s.act.pc + 2 }, s.stk, s.g, s.h.set s.act.cid (fr.set i v), s.a, s.callers⟩ := by
   unfold fstep at hs
   simp only [hf] at hs
   cases hstk : s.stk with
@@ -500,11 +513,11 @@ activations): the second `Closure` creates a DIFFERENT object, holding the value
 ITS iteration, and leaves the first object holding the values `vs1` of the first iteration -/
 theorem closure_created_in_loop {X Y : Ctxt} {pc1 c1 pc2 c2 : Nat} {vs1 ops1 vs2 ops2 : List Val} {σ1 σ2 : Sto} {fd1 fd2 : FnDef}
     (h1 : codeAt X.code pc1 [Instr.closure c1 vs1.length]) (hk1 : K[c1]? = some (.func fd1))
-    (hrun : QuietSteps K F σ1.h.length (X.st (pc1 + 4) (.clos fd1 [] σ1.h.length :: ops1) ⟨σ1.l, σ1.g, σ1.h ++ [vs1]⟩)
+    (hrun : QuietSteps K F σ1.h.length (X.st (pc1 + 4) (.clos fd1 [] σ1.h.length :: ops1) ⟨σ1.l, σ1.g, σ1.h ++ [vs1], σ1.a⟩)
       (Y.st pc2 (vs2.reverse ++ ops2) σ2))
     (h2 : codeAt Y.code pc2 [Instr.closure c2 vs2.length]) (hk2 : K[c2]? = some (.func fd2)) :
-    fstep K F (X.st pc1 (vs1.reverse ++ ops1) σ1) = some (X.st (pc1 + 4) (.clos fd1 [] σ1.h.length :: ops1) ⟨σ1.l, σ1.g, σ1.h ++ [vs1]⟩) ∧
-    fstep K F (Y.st pc2 (vs2.reverse ++ ops2) σ2) = some (Y.st (pc2 + 4) (.clos fd2 [] σ2.h.length :: ops2) ⟨σ2.l, σ2.g, σ2.h ++ [vs2]⟩) ∧
+    fstep K F (X.st pc1 (vs1.reverse ++ ops1) σ1) = some (X.st (pc1 + 4) (.clos fd1 [] σ1.h.length :: ops1) ⟨σ1.l, σ1.g, σ1.h ++ [vs1], σ1.a⟩) ∧
+    fstep K F (Y.st pc2 (vs2.reverse ++ ops2) σ2) = some (Y.st (pc2 + 4) (.clos fd2 [] σ2.h.length :: ops2) ⟨σ2.l, σ2.g, σ2.h ++ [vs2], σ2.a⟩) ∧
     σ1.h.length < σ2.h.length ∧
     (σ2.h ++ [vs2])[σ1.h.length]? = some vs1 ∧ (σ2.h ++ [vs2])[σ2.h.length]? = some vs2 := by
   have hm := steps_heap_mono hrun.steps
@@ -532,7 +545,7 @@ def argsOf : List FExpr → FArgs
   | [] => .nil
   | a :: r => .cons a (argsOf r)
 
-def main0 (T : List FTop) (n : Nat) : FSt := ⟨⟨compileT 0 0 T, ⟨[], [], 0, 0, 0⟩, 0, 0, 0⟩, [], List.replicate n .null, [[]], []⟩
+def main0 (T : List FTop) (n : Nat) : FSt := ⟨⟨compileT 0 0 T, ⟨[], [], 0, 0, 0⟩, 0, 0, 0⟩, [], List.replicate n .null, [[]], {}, []⟩
 
 def runGH (T : List FTop) (n fuel : Nat) : Option (List Val × List (List Val)) :=
   match frun (constsT T) (codeT T) fuel (main0 T n) with
@@ -556,9 +569,9 @@ example : (codesT 0 addersProg).map (·.2) =
 
 /-- the two closures made by `mk(1)` and `mk(10)` are two objects (2 and 3) holding `1` and `10`;
 called after `mk` returned, each subtracts ITS `n`: `5 - 1`, `5 - 10` -/
-example : evalT (phiT addersProg) 40 (List.replicate 5 .null) [[]] addersProg =
+example : evalT (phiT addersProg) 40 (List.replicate 5 .null) [[]] {} addersProg =
     some ([.clos (mkFd [9] [] mkD) [] 1, .clos ⟨[], [], 1, 1, 1⟩ [] 2, .clos ⟨[], [], 1, 1, 1⟩ [] 3, .int 4, .int (-5)],
-          [[], [], [.int 1], [.int 10]]) := by rfl
+          [[], [], [.int 1], [.int 10]], {}) := by rfl
 
 example : runGH addersProg 5 200 =
     some ([.clos (mkFd [9] [] mkD) [] 1, .clos ⟨[], [], 1, 1, 1⟩ [] 2, .clos ⟨[], [], 1, 1, 1⟩ [] 3, .int 4, .int (-5)],
@@ -582,10 +595,10 @@ def counterProg : List FTop :=
 /-- the assignment is private to the closure object and persists across its activations: `c`
 counts 1, 2; `d`, created by another call of `counter`, starts at 1 again; `e` is the SAME
 object as `c` and counts on: 3.  In the end object 2 (`c`, `e`) holds 3, object 3 (`d`) holds 1 -/
-example : evalT (phiT counterProg) 40 (List.replicate 8 .null) [[]] counterProg =
+example : evalT (phiT counterProg) 40 (List.replicate 8 .null) [[]] {} counterProg =
     some ([.clos (mkFd [9] [] counterD) [] 1, .clos ⟨[], [], 0, 0, 1⟩ [] 2, .clos ⟨[], [], 0, 0, 1⟩ [] 3,
            .int 1, .int 2, .int 1, .clos ⟨[], [], 0, 0, 1⟩ [] 2, .int 3],
-          [[], [], [.int 3], [.int 1]]) := by rfl
+          [[], [], [.int 3], [.int 1]], {}) := by rfl
 
 example : runGH counterProg 8 400 =
     some ([.clos (mkFd [9] [] counterD) [] 1, .clos ⟨[], [], 0, 0, 1⟩ [] 2, .clos ⟨[], [], 0, 0, 1⟩ [] 3,
@@ -599,8 +612,8 @@ def laterD : FDecl := ⟨1, 2, [.letL 1 1 (.mkclos 1 [] [] 0 0 [.expr 1 (.fget 1
    .expr 1 (.bin 1 .sub (.call 1 (.lget 1 1) .nil) (.lget 1 0))], 1⟩
 def laterProg : List FTop := [.fnDef 1 0 [9] [] laterD, .stmt (.letG 2 1 (.call 2 (.gget 2 0) (argsOf [.lit 2 (.int 1)])))]
 
-example : evalT (phiT laterProg) 40 (List.replicate 2 .null) [[]] laterProg =
-    some ([.clos (mkFd [9] [] laterD) [] 1, .int (-100)], [[], [], [.int 1]]) := by rfl
+example : evalT (phiT laterProg) 40 (List.replicate 2 .null) [[]] {} laterProg =
+    some ([.clos (mkFd [9] [] laterD) [] 1, .int (-100)], [[], [], [.int 1]], {}) := by rfl
 example : runGH laterProg 2 200 = some ([.clos (mkFd [9] [] laterD) [] 1, .int (-100)], [[], [], [.int 1]]) := by rfl
 
 /-- `let c0 = null; let c1 = null;
@@ -622,9 +635,9 @@ def loopProg : List FTop :=
 
 /-- each iteration's closure keeps that iteration's `j` (10, then 20) although both captured the
 same slot of `make`, which was overwritten by the second iteration and is gone after `make` returned -/
-example : evalT (phiT loopProg) 60 (List.replicate 5 .null) [[]] loopProg =
+example : evalT (phiT loopProg) 60 (List.replicate 5 .null) [[]] {} loopProg =
     some ([.clos ⟨[], [], 0, 0, 5⟩ [] 2, .clos ⟨[], [], 0, 0, 6⟩ [] 3, .clos (mkFd [9] [] loopD) [] 1, .int 10, .int 20],
-          [[], [], [.int 10], [.int 20]]) := by rfl
+          [[], [], [.int 10], [.int 20]], {}) := by rfl
 example : runGH loopProg 5 600 =
     some ([.clos ⟨[], [], 0, 0, 5⟩ [] 2, .clos ⟨[], [], 0, 0, 6⟩ [] 3, .clos (mkFd [9] [] loopD) [] 1, .int 10, .int 20],
           [[], [], [.int 10], [.int 20]]) := by rfl
